@@ -261,7 +261,7 @@ pub fn containment_oracle(cx: &mut CaseCtx, g: &Graph) -> CaseResult {
 // ---- enumerations ----------------------------------------------------------------------------
 
 /// n <= 3: index -> (n, edge bitmask, kinds, wrapper)
-fn small_graph(mut idx: u64) -> Graph {
+pub fn small_graph(mut idx: u64) -> Graph {
     // blocks: n=1: 2*2*10, n=2: 16*4*10, n=3: 512*8*10
     let sizes = [2u64 * 2 * 10, 16 * 4 * 10, 512 * 8 * 10];
     let mut n = 1;
@@ -336,7 +336,7 @@ fn random_graph(u: &mut Unstructured) -> Graph {
 // ---- alias graphs ---------------------------------------------------------------------------
 
 /// <= 4 aliases, each target one of: int32, alias j, Sequence<alias j>, Dictionary<string, alias j>
-fn alias_program(mut idx: u64) -> (Program, bool) {
+pub fn alias_program(mut idx: u64) -> (Program, bool) {
     let n = 1 + (idx % 4) as usize;
     idx /= 4;
     let mut defs = Vec::new();
@@ -399,7 +399,7 @@ fn alias_program(mut idx: u64) -> (Program, bool) {
     )
 }
 
-const ALIAS_TOTAL: u64 = 4 * 16 * 16 * 16 * 16;
+pub const ALIAS_TOTAL: u64 = 4 * 16 * 16 * 16 * 16;
 
 fn alias_case(cx: &mut CaseCtx, input: Input) -> CaseResult {
     let (p, cyclic) = alias_program(input.index());
@@ -437,7 +437,7 @@ fn alias_case(cx: &mut CaseCtx, input: Input) -> CaseResult {
 
 // ---- inheritance graphs ------------------------------------------------------------------------
 
-fn inherit_program(idx: u64) -> (Program, bool, bool) {
+pub fn inherit_program(idx: u64) -> (Program, bool, bool) {
     let n = 1 + (idx % 4) as usize;
     let mask = idx / 4;
     let mut defs = Vec::new();
@@ -486,7 +486,7 @@ fn inherit_program(idx: u64) -> (Program, bool, bool) {
 
 /// n=1: 2 masks, n=2: 16, n=3: 512, n=4: 65536 — indexed as idx%4 = n-1, idx/4 = mask (masks
 /// beyond 2^(n*n) repeat smaller ones for n<4; cheap and harmless)
-const INHERIT_TOTAL: u64 = 4 * 65536;
+pub const INHERIT_TOTAL: u64 = 4 * 65536;
 
 fn inherit_case(cx: &mut CaseCtx, input: Input) -> CaseResult {
     let (p, cyclic, diamond) = inherit_program(input.index());
@@ -547,6 +547,10 @@ impl Check for C05 {
             "inheritance-acyclic",
             "inheritance-multiple-bases",
         ]
+    }
+    fn timeout_is_violation(&self) -> bool {
+        // "None of these inputs makes a later phase recurse forever"
+        true
     }
     fn families(&self, tier: Tier) -> Vec<Family<'_>> {
         let graph_case = |cx: &mut CaseCtx, g: Graph| -> CaseResult {
